@@ -104,6 +104,9 @@ class SyncWorker(base.Worker):
                     if not self.alive:
                         break
 
+                    # every request gets the full timeout, as in run_for_one
+                    self.notify()
+
                     try:
                         self.accept(listener)
                     except OSError as e:
